@@ -273,6 +273,18 @@ class Exec(Engine):
             return
         if isinstance(target, ast.Subscript):
             base = target.value
+            if isinstance(base, ast.Subscript) and isinstance(base.value, ast.Name):
+                # d[k1][k2] = v  (dict of dicts, e.g. a defaultdict(dict)):  inner = d[k1] (the default when missing); inner[k2] = v; d[k1] = inner
+                outer = st.vars[base.value.id]
+                if outer.t[0] != "dict" or outer.x is None or outer.t[2][0] != "dict":
+                    raise OutOfSubset("nested subscript store on something else than a dict of dicts")
+                k1 = self.ev1(base.slice, st)
+                got = self.index(outer, k1, st, target)
+                if len(got) != 1:
+                    raise OutOfSubset("nested subscript store: inner lookup forks")
+                key = self.ev1(target.slice, st)
+                st.vars[base.value.id] = self.dict_store(outer, k1, self.dict_store(got[0][1], key, v))
+                return
             if not isinstance(base, ast.Name):
                 # e.g. self._modules_by_layer_name[k] = v
                 holder = self.lvalue_obj(base.value, st) if isinstance(base, ast.Attribute) else None
